@@ -51,9 +51,10 @@ def _chunks(lst, n):
 
 
 # ---- C17 --------------------------------------------------------------------------------------------
-def probe2(kind, iface, sz, al, idx, idx2, val):
-    """one node with a byte written into the fence in front of it (idx) AND into the one behind it (idx2)"""
-    return "probe %d %d %d %d 4 %d %d %d" % (kind, iface, sz, al, idx, val, idx2)
+def probe2(kind, iface, sz, al, idx, idx2, val, side=4):
+    """one node with two bytes written: side 4 = into the fence in front of it (idx) AND into the one behind it
+    (idx2), 5 = both into the front fence, 6 = both into the back fence"""
+    return "probe %d %d %d %d %d %d %d %d" % (kind, iface, sz, al, side, idx, val, idx2)
 
 
 def probe(kind, iface, sz, al, side, idx, val):
@@ -91,6 +92,8 @@ def fence_grid(cfg, tier, rng):
             if reach:
                 for _ in range(2 if tier == "quick" else 6):
                     cmds.append(probe2(kind, iface, sz, al, rng.randrange(reach), rng.randrange(reach), VALUES[k % 3]))
+                    i1, i2 = rng.sample(range(reach), 2)    # two different bytes of the same fence
+                    cmds.append(probe2(kind, iface, sz, al, i1, i2, VALUES[k % 3], rng.choice([5, 6])))
     # virtual memory: a page on each side
     vreach = PAGE if reach else 0
     if tier == "quick":
